@@ -46,13 +46,17 @@ class StreamRun(Job):
     max_seconds = 1200
 
     def __init__(self, frontend, n, windows, axes=("z", "lat", "lon"), streams=1, tests=("probe_test",), sorted_times=None,
-                 canary=None, prop="C05"):
+                 canary=None, prop="C05", offdim=None):
         self.frontend, self.n, self.windows, self.axes, self.streams, self.tests = frontend, n, tuple(windows), tuple(axes), streams, tuple(tests)
         self.sorted_times = (frontend == "xarray") if sorted_times is None else sorted_times
         self.canary = canary
         self.prop = prop
+        # xarray only: an extra variable `u` on another dimension (no time coordinate), configured first / last in every context;
+        # nothing is claimed about `u` itself (it has no times to window), only that the time-series streams are unaffected
+        self.offdim = offdim
         self.name = (f"stream[{frontend}] n={n} windows={'+'.join(windows)} axes={','.join(axes) or '-'} streams={streams} "
-                     f"tests={'+'.join(tests)}{' sorted' if self.sorted_times else ''}") + (f" CANARY={canary}" if canary else "")
+                     f"tests={'+'.join(tests)}{' sorted' if self.sorted_times else ''}"
+                     f"{' +variable-on-another-dimension-' + offdim if offdim else ''}") + (f" CANARY={canary}" if canary else "")
         if canary:
             self.expect_canary_sat = True
             self.validate_witnesses = False
@@ -81,6 +85,7 @@ class StreamRun(Job):
             en = V.time(f"w{k}e") if w in ("closed", "end") else None
             S.win.append((st, en))
         S.thr = [V.float(f"thr{k}", lo=-4, hi=4) for k in range(len(self.windows))]
+        S.u = V.floats("u", n + 1, nan=True) if self.offdim else None
         if self.frontend == "pandas_idx":
             # arbitrary row labels: not 0..n-1, not sorted, possibly repeated (e.g. pd.concat without ignore_index)
             S.labels = [V.int(f"lab{i}", 0, n + 1) for i in range(n)]
@@ -109,6 +114,9 @@ class StreamRun(Job):
                     elif tname == "rate_of_change_test":
                         tests[tname] = {"threshold": abs(S.thr[k])}
                 streams[sid] = {"qartod": tests}
+            if self.offdim:
+                u = {"u": {"qartod": {"spike_test": {"suspect_threshold": 1, "fail_threshold": 4}}}}
+                streams = {**u, **streams} if self.offdim == "first" else {**streams, **u}
             ctx = {"streams": streams}
             if st is not None or en is not None:
                 ctx["window"] = tw(starting=K.tstamp(st) if st is not None else None, ending=K.tstamp(en) if en is not None else None)
@@ -135,7 +143,7 @@ class StreamRun(Job):
             st = mods.streams.PandasStream(df)
             return list(st.run(mods.config.Config(cfg)))
         if fe in ("netcdf", "xarray"):
-            ds = K.dataset(time=t, data_vars={**cols, **ax})
+            ds = K.dataset(time=t, data_vars={**cols, **ax}, other={"u": K.farray(S.u)} if self.offdim else None)
             cls = mods.streams.NetcdfStream if fe == "netcdf" else mods.streams.XarrayStream
             return list(cls(ds).run(mods.config.Config(cfg)))
         if fe == "qcconfig":
@@ -158,6 +166,8 @@ class StreamRun(Job):
         try:
             cfg = self._config(mods, S, K)
             res = self._run_stream(mods, S, K, cfg)
+            if self.offdim:
+                res = [cr for cr in res if cr.stream_id != "u"]
             probe = list(log)
             # direct calls of the real neighbour/time dependent tests on the oracle's window rows
             direct = {}
@@ -408,11 +418,13 @@ class _StreamKit:
         import pandas as pd
         return pd.DataFrame(data, index=index)
 
-    def dataset(self, time, data_vars):
+    def dataset(self, time, data_vars, other=None):
+        dv = {k: (("time",), v) for k, v in data_vars.items()}
+        dv.update({k: (("obs",), v) for k, v in (other or {}).items()})
         if self.K.sym:
-            return symxr.Dataset(data_vars={k: (("time",), v) for k, v in data_vars.items()}, coords={"time": (("time",), time)})
+            return symxr.Dataset(data_vars=dv, coords={"time": (("time",), time)})
         import xarray as xr
-        return xr.Dataset({k: (("time",), v) for k, v in data_vars.items()}, coords={"time": time})
+        return xr.Dataset(dv, coords={"time": time})
 
 
 def jobs(tier):
@@ -431,6 +443,10 @@ def jobs(tier):
         out.append(StreamRun(fe, n, ("start",), axes=("z",), tests=("probe_test", "spike_test")))
         if fe != "qcconfig":
             out.append(StreamRun(fe, 3, ("closed",), axes=(), tests=("rate_of_change_test",)))
+        if fe == "xarray":
+            out.append(StreamRun(fe, n, ("closed",), axes=("z",), offdim="first"))
+            out.append(StreamRun(fe, n, ("start", "end"), axes=(), offdim="last"))
+            out.append(StreamRun(fe, n, ("end", "none"), axes=(), offdim="first", tests=("probe_test", "spike_test")))
         if fe not in ("numpy", "qcconfig"):
             out.append(StreamRun(fe, n, ("end",), streams=2))
         out.append(StreamRun(fe, 0, ("closed",)))
